@@ -1,4 +1,4 @@
-package purea
+package st
 
 import (
 	"bytes"
